@@ -83,6 +83,8 @@ def check(chk):
     from sa.rules import c02 as _c02
     _c02._pair2(chk, only="mpf/core/mode.py")
     _c02._start_wait_taken_only_when_starting(chk)
+    from sa.helpers import unload_cleanup_unconditional
+    unload_cleanup_unconditional(chk, "PAIR-8")
 
     # ------------------------------------------------------------ TRACE-2
     CHAIN = [
